@@ -35,6 +35,9 @@ func (c *zzCloser) Close() error {
 	vAssert(idle, "C05.transport-closed-only-when-idle")
 	vAssert(shut, "C05.transport-closed-only-when-shutting-down")
 	c.calls++
+	if vBool("closerReportsError") {
+		return errors.New("close: broken pipe") // closing a transport may fail; the connection is finished all the same
+	}
 	return nil
 }
 
@@ -775,6 +778,12 @@ func zzConnDispatch() {
 	g.varyQueue = true
 	h := &zzHandler{}
 	g.c.handler = h
+	// a queued request may already have been cancelled when its turn comes (the peer cancelled it, or a broken write
+	// cancelled everything in flight)
+	if k := vChoice("cancelledWhileQueued", 1+vParam("cancelKinds")); k > 0 { // none, or one of the queued requests (quick: the first call; thorough: any of the three)
+		r := []*incomingRequest{g.q1, g.q2, g.q3}[k-1]
+		r.cancel(zzErrWrite)
+	}
 	g.install()
 	vGoInline("handleAsync$") // the handler goroutine of each iteration runs to completion before the dispatcher resumes
 	g.c.handleAsync()
@@ -790,6 +799,15 @@ func zzConnDispatch() {
 	vAssert(g.myIn == 0, "C02.token-returned-exactly-once")
 	for _, t := range g.taken {
 		vAssert(t.ctx.Err() != nil, "C02.request-context-released")
+		// (whether an already cancelled request is still shown to the handler is not part of any property; that it is
+		// answered at most once and its token returned is)
+		answers := 0
+		for _, m := range g.w.msgs {
+			if r, ok := m.(*Response); ok && r.ID == t.ID && t.IsCall() {
+				answers++
+			}
+		}
+		vAssert(answers <= 1, "C02.at-most-one-response")
 	}
 	if len(g.taken) > 0 {
 		vReach("dispatched")
